@@ -135,7 +135,7 @@ func (e *Engine) FindFunc(pkgPath, key string) *ssa.Function {
 	if pkgPath != "" {
 		if i := strings.Index(key, "."); i >= 0 && !strings.Contains(key, "/") && !strings.HasPrefix(key, "(") {
 			t, m := key[:i], key[i+1:]
-			cands = append(cands, fmt.Sprintf("(*%s.%s).%s", pkgPath, t, m), fmt.Sprintf("(%s.%s).%s", pkgPath, t, m))
+			cands = append(cands, fmt.Sprintf("(%s.%s).%s", pkgPath, t, m), fmt.Sprintf("(*%s.%s).%s", pkgPath, t, m))
 		}
 		cands = append(cands, pkgPath+"."+key)
 	}
